@@ -9,6 +9,6 @@ TEXTS = {
  "C11": {
   "technique": "Lean 4 theorems over a byte-level hand model of the (repaired) v1->v2 converter and opcode tables regenerated from opcodes.go / encoder/opv1 / MakeInstruction / the converter's switches; model tied by a correspondence stream that down-converts compiled programs with an independent relocator, decodes them through the implementation and runs both",
   "level": "Machine-checked proof: conv_decodes (for every decodable version-1 stream the converter succeeds and the result decodes to the same instructions with every offset, jump/try operand and source-map key mapped through the boundary map; zero SETUPTRY operands stay zero), newOff_strict_mono, conv_no_panic, conv_total (arbitrary bytes: error or ok, never a panic), decode_encode; reloc_sim + C11_partial: any VM semantics equivariant under the offset map runs the converted function to the same outcome (full statement C11_full visible; equivariance of the real VM model not yet discharged).",
-  "note": "Partial: the behavioural conclusion is proved against an abstract machine (Spec/Reloc.lean) under the stated Equivariant / hpos / hend hypotheses; on the implementation it is tested by the `v1` stream's oracle (original vs decoded-from-v1 program: outcome and stack-trace positions on generated programs). Trusted: Lean kernel; goextract opcode-table generator (fail-closed); hand model Model/V1.lean tied by stream `v1`; harness down-converter. Two fix commits in ugo: relocation (the C11 defect) and error instead of panic on unknown opcode / truncated instruction.",
+  "note": "Partial: the behavioural conclusion is proved against an abstract machine (Spec/Reloc.lean) under the stated Equivariant / hpos hypotheses; on the implementation it is tested by the `v1` stream's oracle (original vs decoded-from-v1 program: outcome and stack-trace positions on generated programs). Trusted: Lean kernel; goextract opcode-table generator (fail-closed); hand model Model/V1.lean tied by stream `v1`; harness down-converter. Two fix commits in ugo: relocation (the C11 defect) and error instead of panic on unknown opcode / truncated instruction.",
  },
 }
